@@ -893,7 +893,7 @@ theorem ex_kwExtends_arr (d : Draft) (ss : List Json) (i : Json)
 theorem ex_items_each (v : Json) (xs : List Json) (n : Nat) (h : ∀ x ∈ xs, Ok (rec x v) (sub v x)) :
     Ex (seqG (fun (t : Nat × Json) => descendG (rec t.2 v) (some (.idx t.1)) none) (enumFrom n xs))
       (xs.all (fun x => sub v x)) :=
-  ex_seqG_enum _ _ n xs (fun m x hx => ex_descendG _ _ (h x hx).1)
+  ex_seqG_enum _ _ n xs (fun _ x hx => ex_descendG _ _ (h x hx).1)
 
 theorem ex_items_zip (ss xs : List Json) (n : Nat) (h : ∀ s ∈ ss, ∀ x ∈ xs, Ok (rec x s) (sub s x)) :
     Ex (seqG (fun (t : (Nat × Json) × Json) =>
@@ -1055,5 +1055,603 @@ theorem ex_kwPropertyNames (d : Draft) (v : Json) (ms : List (Str × Json))
   rw [gate_ok _ (isTypeS_object d _)]
   simp only [Json.isObj, if_true]
   exact ex_seqG _ _ _ (fun m hm => ex_descendG _ _ (h m hm).1)
+
+variable {rec : Rec} {sub : Json → Json → Bool}
+
+/-! ### object lookups under distinct keys -/
+
+theorem lookup_none_iff {k : Str} {kvs : List (Str × Json)} :
+    Json.lookup k kvs = none ↔ ∀ v, (k, v) ∉ kvs := by
+  induction kvs with
+  | nil => simp [Json.lookup]
+  | cons y ys ih =>
+    obtain ⟨k', v'⟩ := y
+    simp only [Json.lookup]
+    split
+    · rename_i hk
+      subst hk
+      simp only [reduceCtorEq, false_iff, not_forall, not_not]
+      exact ⟨v', List.mem_cons_self ..⟩
+    · rename_i hk
+      rw [ih]
+      constructor
+      · intro h v hv
+        rcases List.mem_cons.mp hv with e | hv
+        · cases e; exact hk rfl
+        · exact h v hv
+      · intro h v hv
+        exact h v (List.mem_cons_of_mem _ hv)
+
+theorem lookup_eq_some_iff {k : Str} {v : Json} {kvs : List (Str × Json)}
+    (hd : keysDistinct kvs = true) : Json.lookup k kvs = some v ↔ (k, v) ∈ kvs := by
+  refine ⟨lookup_mem, ?_⟩
+  induction kvs with
+  | nil => intro h; cases h
+  | cons y ys ih =>
+    obtain ⟨k', v'⟩ := y
+    simp only [keysDistinct, Bool.and_eq_true, Bool.not_eq_true', List.any_eq_false, beq_iff_eq] at hd
+    intro h
+    simp only [Json.lookup]
+    rcases List.mem_cons.mp h with e | h
+    · cases e; rw [if_pos rfl]
+    · rw [if_neg (fun e => hd.1 (k, v) h e.symm)]
+      exact ih hd.2 h
+
+theorem hasKey_iff {k : Str} {kvs : List (Str × Json)} :
+    Json.hasKey k kvs = true ↔ ∃ v, (k, v) ∈ kvs := by
+  unfold Json.hasKey
+  cases h : Json.lookup k kvs with
+  | none =>
+    simp only [Option.isSome_none, Bool.false_eq_true, false_iff, not_exists]
+    exact lookup_none_iff.mp h
+  | some v => simp only [Option.isSome_some, true_iff]; exact ⟨v, lookup_mem h⟩
+
+theorem all_and {α : Type} (xs : List α) (p q : α → Bool) :
+    xs.all (fun x => p x && q x) = (xs.all p && xs.all q) := by
+  induction xs with
+  | nil => rfl
+  | cons x xs ih => simp only [List.all_cons, ih]; cases p x <;> cases q x <;> simp
+
+theorem all_all_swap {α β : Type} (xs : List α) (ys : List β) (f : α → β → Bool) :
+    xs.all (fun x => ys.all (fun y => f x y)) = ys.all (fun y => xs.all (fun x => f x y)) := by
+  rw [Bool.eq_iff_iff]
+  simp only [List.all_eq_true]
+  exact ⟨fun h y hy x hx => h x hx y hy, fun h x hx y hy => h y hy x hx⟩
+
+/-- `properties` iterates the schema's members, the specification the instance's -/
+theorem props_swap (f : Json → Json → Bool) (ps ms : List (Str × Json))
+    (hps : keysDistinct ps = true) (hms : keysDistinct ms = true) :
+    ps.all (fun p => match Json.lookup p.1 ms with | some x => f p.2 x | none => true)
+      = ms.all (fun m => match Json.lookup m.1 ps with | some s => f s m.2 | none => true) := by
+  rw [Bool.eq_iff_iff]
+  simp only [List.all_eq_true]
+  constructor
+  · intro h m hm
+    cases hl : Json.lookup m.1 ps with
+    | none => rfl
+    | some s =>
+      have := h (m.1, s) (lookup_mem hl)
+      rw [(lookup_eq_some_iff hms).mpr (show (m.1, m.2) ∈ ms from hm)] at this
+      exact this
+  · intro h p hp
+    cases hl : Json.lookup p.1 ms with
+    | none => rfl
+    | some x =>
+      have := h (p.1, x) (lookup_mem hl)
+      rw [(lookup_eq_some_iff hps).mpr (show (p.1, p.2) ∈ ps from hp)] at this
+      exact this
+
+/-! ### `properties` -/
+
+theorem kwProperties_nonobj (d : Draft) (v i : Json) (h : i.isObj = false) :
+    kwProperties (d.cfg none) rec v i = nothing := by
+  unfold kwProperties
+  rw [gate_ok _ (isTypeS_object d i), h]
+  rfl
+
+theorem kwPropertiesDraft3_nonobj (d : Draft) (v i s : Json) (h : i.isObj = false) :
+    kwPropertiesDraft3 (d.cfg none) rec v i s = nothing := by
+  unfold kwPropertiesDraft3
+  rw [gate_ok _ (isTypeS_object d i), h]
+  rfl
+
+theorem ex_kwProperties (d : Draft) (ps ms : List (Str × Json))
+    (hps : keysDistinct ps = true) (hms : keysDistinct ms = true)
+    (h : ∀ p ∈ ps, ∀ m ∈ ms, Ok (rec m.2 p.2) (sub p.2 m.2)) :
+    Ex (kwProperties (d.cfg none) rec (.obj ps) (.obj ms))
+      (ms.all (fun m => match Json.lookup m.1 ps with | some s => sub s m.2 | none => true)) := by
+  unfold kwProperties
+  rw [gate_ok _ (isTypeS_object d _), ← props_swap (fun s x => sub s x) ps ms hps hms]
+  simp only [Json.isObj, if_true]
+  refine ex_seqG _ _ _ (fun p hp => ?_)
+  cases hl : Json.lookup p.1 ms with
+  | none => exact ex_nothing
+  | some x => exact ex_descendG _ _ (h p hp (p.1, x) (lookup_mem hl)).1
+
+/-- the `required` part of draft 3 `properties` for one member of `properties` -/
+def req3 (ms : List (Str × Json)) (p : Str × Json) : Bool :=
+  match p.2 with
+  | .obj pk => (match lookupJ "required" pk with
+                | some (.bool true) => Json.hasKey p.1 ms
+                | _ => true)
+  | _ => true
+
+theorem req3_of_hasKey (ms : List (Str × Json)) (p : Str × Json) (hk : Json.hasKey p.1 ms = true) :
+    req3 ms p = true := by
+  unfold req3
+  cases p.2 <;> try rfl
+  dsimp only
+  cases lookupJ "required" _ <;> try rfl
+  rename_i r
+  cases r <;> try rfl
+  rename_i b
+  cases b
+  · rfl
+  · exact hk
+
+theorem ex_kwPropertiesDraft3 (d : Draft) (schema : Json) (ps ms : List (Str × Json))
+    (hps : keysDistinct ps = true) (hms : keysDistinct ms = true)
+    (h : ∀ p ∈ ps, ∀ m ∈ ms, Ok (rec m.2 p.2) (sub p.2 m.2))
+    (hreq : ∀ p ∈ ps, ∃ pk, p.2 = .obj pk ∧ ∀ r, lookupJ "required" pk = some r → isBoolV r = true) :
+    Ex (kwPropertiesDraft3 (d.cfg none) rec (.obj ps) (.obj ms) schema)
+      (ms.all (fun m => match Json.lookup m.1 ps with | some s => sub s m.2 | none => true)
+        && ps.all (req3 ms)) := by
+  unfold kwPropertiesDraft3
+  rw [gate_ok _ (isTypeS_object d _), ← props_swap (fun s x => sub s x) ps ms hps hms, ← all_and]
+  simp only [Json.isObj, if_true]
+  refine ex_seqG _ _ _ (fun p hp => ?_)
+  obtain ⟨pk, hpk, hb⟩ := hreq p hp
+  cases hl : Json.lookup p.1 ms with
+  | some x =>
+    refine (ex_descendG _ _ (h p hp (p.1, x) (lookup_mem hl)).1).congr ?_
+    have hk : Json.hasKey p.1 ms = true := by unfold Json.hasKey; rw [hl]; rfl
+    rw [req3_of_hasKey ms p hk, Bool.and_true]
+  | none =>
+    have hk : Json.hasKey p.1 ms = false := by unfold Json.hasKey; rw [hl]; rfl
+    unfold req3
+    rw [hpk, hk]
+    dsimp only
+    have e : Json.lookup (skey "required") pk = lookupJ "required" pk := rfl
+    rw [e]
+    cases hr : lookupJ "required" pk with
+    | none => exact ex_nothing
+    | some r =>
+      have := hb r hr
+      cases r <;> simp [isBoolV] at this
+      rename_i b
+      cases b
+      · exact ex_nothing
+      · exact ex_emit_one _
+
+/-! ### `patternProperties` -/
+
+theorem kwPatternProperties_nonobj (env : Env) (d : Draft) (v i : Json) (h : i.isObj = false) :
+    kwPatternProperties env (d.cfg none) rec v i = nothing := by
+  unfold kwPatternProperties
+  rw [gate_ok _ (isTypeS_object d i), h]
+  rfl
+
+theorem ex_kwPatternProperties (env : Env) (hre : RegexTotal env) (d : Draft)
+    (pps ms : List (Str × Json))
+    (h : ∀ p ∈ pps, ∀ m ∈ ms, Ok (rec m.2 p.2) (sub p.2 m.2)) :
+    Ex (kwPatternProperties env (d.cfg none) rec (.obj pps) (.obj ms))
+      (ms.all (fun m => pps.all (fun p => !rx env p.1 m.1 || sub p.2 m.2))) := by
+  unfold kwPatternProperties
+  rw [gate_ok _ (isTypeS_object d _), all_all_swap]
+  simp only [Json.isObj, if_true]
+  refine ex_seqG _ _ _ (fun p hp => ex_seqG _ _ _ (fun m hm => ?_))
+  rw [search_total env hre, withRes_ok]
+  cases rx env p.1 m.1
+  · exact ex_nothing
+  · rw [if_pos rfl]
+    exact ex_descendG _ _ (h p hp m hm).1
+
+/-! ### `dependencies` -/
+
+theorem kwDependencies_nonobj (d : Draft) (v i : Json) (h : i.isObj = false) :
+    kwDependencies (d.cfg none) rec v i = nothing := by
+  unfold kwDependencies
+  rw [gate_ok _ (isTypeS_object d i), h]
+  rfl
+
+theorem kwDependenciesDraft3_nonobj (d : Draft) (v i : Json) (h : i.isObj = false) :
+    kwDependenciesDraft3 (d.cfg none) rec v i = nothing := by
+  unfold kwDependenciesDraft3
+  rw [gate_ok _ (isTypeS_object d i), h]
+  rfl
+
+theorem ex_depArray (ms : List (Str × Json)) (prop : Str) (names : List Json)
+    (h : ∀ r ∈ names, isStrJ r = true) :
+    Ex (depArray ms prop names)
+      (names.all (fun r => match r with | .str r => Json.hasKey r ms | _ => true)) :=
+  ex_missing_str ms "dependency" (fun each => [each, .str prop]) names h
+
+/-- drafts 4, 6, 7: an array of names or a schema -/
+theorem ex_kwDependencies (d : Draft) (ds ms : List (Str × Json))
+    (h : ∀ dp ∈ ds, (∃ names, dp.2 = .arr names ∧ ∀ r ∈ names, isStrJ r = true)
+        ∨ (dp.2.isArr = false ∧ dp.2.isStr = false ∧ Ok (rec (.obj ms) dp.2) (sub dp.2 (.obj ms)))) :
+    Ex (kwDependencies (d.cfg none) rec (.obj ds) (.obj ms))
+      (ds.all (fun dp => !Json.hasKey dp.1 ms ||
+         (match dp.2 with
+          | .arr names => names.all (fun r => match r with | .str r => Json.hasKey r ms | _ => true)
+          | .str r => if d = .d3 then Json.hasKey r ms else true
+          | sch => sub sch (.obj ms)))) := by
+  unfold kwDependencies
+  rw [gate_ok _ (isTypeS_object d _)]
+  simp only [Json.isObj, if_true]
+  refine ex_seqG _ _ _ (fun dp hdp => ?_)
+  cases hk : Json.hasKey dp.1 ms
+  · exact ex_nothing
+  · simp only [Bool.not_true, Bool.false_eq_true, if_false, Bool.false_or, isTypeS_array, withRes_ok]
+    obtain ⟨dk, dv⟩ := dp
+    rcases h _ hdp with ⟨names, hn, hs⟩ | ⟨h1, h2, h3⟩
+    · dsimp only at hn
+      subst hn
+      simp only [Json.isArr, if_true]
+      exact ex_depArray ms _ names hs
+    · dsimp only at h1 h2 h3 ⊢
+      rw [h1, if_neg (by simp)]
+      refine (ex_descendG _ _ h3.1).congr ?_
+      cases dv with
+      | arr _ => simp [Json.isArr] at h1
+      | str _ => simp [Json.isStr] at h2
+      | _ => rfl
+
+/-- draft 3: a schema, a name, or an array of names -/
+theorem ex_kwDependenciesDraft3 (d : Draft) (hd : d = .d3) (ds ms : List (Str × Json))
+    (h : ∀ dp ∈ ds, (∃ names, dp.2 = .arr names ∧ ∀ r ∈ names, isStrJ r = true)
+        ∨ (∃ r, dp.2 = .str r)
+        ∨ (dp.2.isObj = true ∧ Ok (rec (.obj ms) dp.2) (sub dp.2 (.obj ms)))) :
+    Ex (kwDependenciesDraft3 (d.cfg none) rec (.obj ds) (.obj ms))
+      (ds.all (fun dp => !Json.hasKey dp.1 ms ||
+         (match dp.2 with
+          | .arr names => names.all (fun r => match r with | .str r => Json.hasKey r ms | _ => true)
+          | .str r => if d = .d3 then Json.hasKey r ms else true
+          | sch => sub sch (.obj ms)))) := by
+  unfold kwDependenciesDraft3
+  rw [gate_ok _ (isTypeS_object d _)]
+  simp only [Json.isObj, if_true]
+  refine ex_seqG _ _ _ (fun dp hdp => ?_)
+  cases hk : Json.hasKey dp.1 ms
+  · exact ex_nothing
+  · simp only [Bool.not_true, Bool.false_eq_true, if_false, Bool.false_or, isTypeS_object,
+      isTypeS_string, withRes_ok]
+    obtain ⟨dk, dv⟩ := dp
+    rcases h _ hdp with ⟨names, hn, hs⟩ | ⟨r, hr⟩ | ⟨h1, h3⟩
+    · dsimp only at hn
+      subst hn
+      simp only [Json.isObj, Json.isStr, Bool.false_eq_true, if_false]
+      exact ex_depArray ms _ names hs
+    · dsimp only at hr
+      subst hr
+      simp only [Json.isObj, Json.isStr, Bool.false_eq_true, if_false, if_true, missingKey,
+        withRes_ok, hd]
+      refine (ex_ite_emit _ _).congr ?_
+      simp
+    · dsimp only at h1 h3 ⊢
+      rw [h1, if_pos rfl]
+      refine (ex_descendG _ _ h3.1).congr ?_
+      cases dv <;> first | rfl | simp [Json.isObj] at h1
+
+variable {rec : Rec} {sub : Json → Json → Bool}
+
+/-! ### `additionalProperties` -/
+
+theorem anySearch_total (env : Env) (hre : RegexTotal env) (prop : Str) (ps : List Str) :
+    anySearch env prop ps = .ok (ps.any (fun p => rx env p prop)) := by
+  induction ps with
+  | nil => rfl
+  | cons p ps ih =>
+    unfold anySearch
+    rw [search_total env hre, List.any_cons]
+    cases rx env p prop
+    · exact ih
+    · rfl
+
+theorem findAdditional_eq (env : Env) (hre : RegexTotal env) (props : List (Str × Json))
+    (pats : List Str) (ms : List (Str × Json)) :
+    findAdditional env props pats ms
+      = .ok ((ms.map (·.1)).filter
+          (fun k => !(Json.hasKey k props || pats.any (fun p => rx env p k)))) := by
+  induction ms with
+  | nil => rfl
+  | cons m ms ih =>
+    obtain ⟨k, x⟩ := m
+    unfold findAdditional
+    rw [anySearch_total env hre, ih, List.map_cons, List.filter_cons]
+    cases Json.hasKey k props
+    · cases pats.any (fun p => rx env p k) <;> rfl
+    · rfl
+
+theorem additional_props_spec' (env : Env) (hre : RegexTotal env)
+    (props : List (Str × Json)) (pats : List Str) (ms : List (Str × Json)) :
+    ∃ extras, findAdditional env props pats ms = .ok extras
+      ∧ ∀ k, k ∈ extras ↔ (k ∈ ms.map (·.1) ∧ Json.hasKey k props = false
+          ∧ ∀ p ∈ pats, Spec.rx env p k = false) := by
+  refine ⟨_, findAdditional_eq env hre props pats ms, fun k => ?_⟩
+  simp only [List.mem_filter, Bool.not_eq_true', Bool.or_eq_false_iff, List.any_eq_false,
+    Bool.not_eq_true]
+
+def propsOf (kvs : List (Str × Json)) : List (Str × Json) :=
+  match lookupJ "properties" kvs with | some (.obj ps) => ps | _ => []
+
+def patsOf (kvs : List (Str × Json)) : List (Str × Json) :=
+  match lookupJ "patternProperties" kvs with | some (.obj ps) => ps | _ => []
+
+theorem covered_eq (env : Env) (kvs : List (Str × Json)) (key : Str) :
+    covered env kvs key
+      = (Json.hasKey key (propsOf kvs) || ((patsOf kvs).map (·.1)).any (fun p => rx env p key)) := by
+  unfold covered propsOf patsOf
+  congr 1
+  · cases lookupJ "properties" kvs <;> try rfl
+    rename_i x; cases x <;> rfl
+  · cases lookupJ "patternProperties" kvs
+    · rfl
+    · rename_i x; cases x <;> first | rfl | simp [List.any_map, Function.comp_def]
+
+theorem objKvs_props (kvs : List (Str × Json))
+    (h : ∀ x, lookupJ "properties" kvs = some x → x.isObj = true) :
+    objKvs ((Json.obj kvs).get? (skey "properties")) = some (propsOf kvs) := by
+  have e : (Json.obj kvs).get? (skey "properties") = lookupJ "properties" kvs := rfl
+  rw [e]
+  unfold propsOf
+  cases hl : lookupJ "properties" kvs with
+  | none => rfl
+  | some x =>
+    have := h x hl
+    cases x <;> simp [Json.isObj] at this
+    rfl
+
+theorem objKvs_pats (kvs : List (Str × Json))
+    (h : ∀ x, lookupJ "patternProperties" kvs = some x → x.isObj = true) :
+    objKvs ((Json.obj kvs).get? (skey "patternProperties")) = some (patsOf kvs) := by
+  have e : (Json.obj kvs).get? (skey "patternProperties") = lookupJ "patternProperties" kvs := rfl
+  rw [e]
+  unfold patsOf
+  cases hl : lookupJ "patternProperties" kvs with
+  | none => rfl
+  | some x =>
+    have := h x hl
+    cases x <;> simp [Json.isObj] at this
+    rfl
+
+theorem kwAdditionalProperties_nonobj (env : Env) (d : Draft) (v i s : Json) (h : i.isObj = false) :
+    kwAdditionalProperties env (d.cfg none) rec v i s = nothing := by
+  unfold kwAdditionalProperties
+  rw [gate_ok _ (isTypeS_object d i), h]
+  rfl
+
+theorem ex_kwAdditionalProperties (env : Env) (hre : RegexTotal env) (hset : SetOrderOk env)
+    (d : Draft) (kvs : List (Str × Json)) (v : Json) (ms : List (Str × Json))
+    (hms : keysDistinct ms = true)
+    (hprops : ∀ x, lookupJ "properties" kvs = some x → x.isObj = true)
+    (hpats : ∀ x, lookupJ "patternProperties" kvs = some x → x.isObj = true)
+    (hv : (∃ b, v = .bool b) ∨ (v.isObj = true ∧ ∀ m ∈ ms, Ok (rec m.2 v) (sub v m.2))) :
+    Ex (kwAdditionalProperties env (d.cfg none) rec v (.obj ms) (.obj kvs))
+      (match v with
+       | .bool true => true
+       | .bool false => ms.all (fun m => covered env kvs m.1)
+       | sch => ms.all (fun m => covered env kvs m.1 || sub sch m.2)) := by
+  obtain ⟨extras, hex, hperm⟩ := hset ((ms.map (·.1)).filter
+    (fun k => !(Json.hasKey k (propsOf kvs) || ((patsOf kvs).map (·.1)).any (fun p => rx env p k))))
+  have hmem : ∀ k, k ∈ extras ↔ (∃ x, (k, x) ∈ ms) ∧ covered env kvs k = false := by
+    intro k
+    rw [hperm.mem_iff, covered_eq]
+    simp only [List.mem_filter, List.mem_map, Bool.not_eq_true']
+    constructor
+    · rintro ⟨⟨m, hm, rfl⟩, h2⟩; exact ⟨⟨m.2, hm⟩, h2⟩
+    · rintro ⟨⟨x, hx⟩, h2⟩; exact ⟨⟨(k, x), hx, rfl⟩, h2⟩
+  unfold kwAdditionalProperties
+  rw [gate_ok _ (isTypeS_object d _), objKvs_props kvs hprops, objKvs_pats kvs hpats]
+  simp only [Json.isObj, if_true, findAdditional_eq env hre, withRes_ok, hex, askOpt, isTypeS_object]
+  rcases hv with ⟨b, rfl⟩ | ⟨hobj, h⟩
+  · cases b
+    · have hval : extras.isEmpty = ms.all (fun m => covered env kvs m.1) := by
+        rw [Bool.eq_iff_iff, List.all_eq_true, List.isEmpty_iff]
+        constructor
+        · intro he m hm
+          cases hc : covered env kvs m.1 with
+          | true => rfl
+          | false =>
+            have : m.1 ∈ extras := (hmem m.1).mpr ⟨⟨m.2, hm⟩, hc⟩
+            rw [he] at this; cases this
+        · intro hall
+          cases extras with
+          | nil => rfl
+          | cons e es =>
+            obtain ⟨⟨x, hx⟩, hc⟩ := (hmem e).mp (List.mem_cons_self ..)
+            have := hall (e, x) hx
+            rw [hc] at this; cases this
+      simp only [Bool.false_eq_true, if_false, truthy, Bool.not_false, Bool.true_and]
+      rw [← hval]
+      cases extras with
+      | nil => exact ex_nothing
+      | cons e es =>
+        simp only [List.isEmpty_cons, Bool.not_false, if_true]
+        split <;> exact ex_emit_one _
+    · exact ex_nothing
+  · obtain ⟨okvs, rfl⟩ : ∃ okvs, v = .obj okvs := by
+      cases v <;> simp [Json.isObj] at hobj
+      exact ⟨_, rfl⟩
+    simp only [if_true]
+    refine (ex_seqG _ (fun e => match Json.lookup e ms with | some x => sub (.obj okvs) x | none => true)
+      _ (fun e he => ?_)).congr ?_
+    · obtain ⟨⟨x, hx⟩, _⟩ := (hmem e).mp he
+      rw [(lookup_eq_some_iff hms).mpr hx]
+      exact ex_descendG _ _ (h _ hx).1
+    · rw [Bool.eq_iff_iff, List.all_eq_true, List.all_eq_true]
+      constructor
+      · intro hall m hm
+        cases hc : covered env kvs m.1 with
+        | true => rfl
+        | false =>
+          have := hall m.1 ((hmem m.1).mpr ⟨⟨m.2, hm⟩, hc⟩)
+          rw [(lookup_eq_some_iff hms).mpr (show (m.1, m.2) ∈ ms from hm)] at this
+          simpa using this
+      · intro hall e he
+        obtain ⟨⟨x, hx⟩, hc⟩ := (hmem e).mp he
+        rw [(lookup_eq_some_iff hms).mpr hx]
+        have := hall (e, x) hx
+        rw [hc] at this
+        simpa using this
+
+variable {rec : Rec} {sub : Json → Json → Bool}
+
+/-! ### `anyOf`, `oneOf` -/
+
+/-- the verdict of the first loop of `anyOf`/`oneOf` -/
+def fv (p : Json → Bool) (q : List (Nat × Json) → Bool) : List (Nat × Json) → Bool
+  | [] => false
+  | (_, s) :: rest => if p s then q rest else fv p q rest
+
+theorem ex_firstValid (inst : Json) (k : Option (Json × List (Nat × Json)) → List Err → Gen)
+    (p : Json → Bool) (q : List (Nat × Json) → Bool)
+    (hnone : ∀ acc, Ex (k none acc) false)
+    (hsome : ∀ s rest acc, (∀ t ∈ rest, Ok (rec inst t.2) (p t.2)) → Ex (k (some (s, rest)) acc) (q rest))
+    (xs : List (Nat × Json)) (hx : ∀ t ∈ xs, Ok (rec inst t.2) (p t.2)) :
+    ∀ acc, Ex (firstValid rec inst k xs acc) (fv p q xs) := by
+  induction xs with
+  | nil => intro acc; exact hnone acc
+  | cons t rest ih =>
+    obtain ⟨i, s⟩ := t
+    intro acc
+    unfold firstValid
+    have hrest : ∀ t ∈ rest, Ok (rec inst t.2) (p t.2) := fun t ht => hx t (List.mem_cons_of_mem _ ht)
+    refine ex_inner_none _ (ex_descendG _ _ (hx (i, s) (List.mem_cons_self ..)).1) (fun es hes => ?_)
+    dsimp only at hes
+    unfold fv
+    rw [hes]
+    cases p s
+    · simp only [Bool.false_eq_true, if_false]
+      exact ih hrest _
+    · simp only [if_true]
+      exact hsome s rest acc hrest
+
+theorem fv_any (p : Json → Bool) (n : Nat) (ss : List Json) :
+    fv p (fun _ => true) (enumFrom n ss) = ss.any p := by
+  induction ss generalizing n with
+  | nil => rfl
+  | cons s ss ih =>
+    simp only [enumFrom, fv, List.any_cons, ih]
+    cases p s <;> rfl
+
+theorem ex_kwAnyOf (ss : List Json) (i : Json) (h : ∀ s ∈ ss, Ok (rec i s) (sub s i)) :
+    Ex (kwAnyOf rec (.arr ss) i) (ss.any (fun s => sub s i)) := by
+  unfold kwAnyOf
+  rw [← fv_any (fun s => sub s i) 0 ss]
+  refine ex_firstValid i _ _ _ (fun acc => ex_emit_one _) (fun s rest acc _ => ex_nothing) _
+    (fun t ht => h t.2 (mem_enumFrom ht)) []
+
+theorem ex_moreValid (inst : Json) (k : List Json → Gen) (p : Json → Bool) (r : List Json → Bool)
+    (hk : ∀ more, Ex (k more) (r more)) (rest : List (Nat × Json))
+    (hx : ∀ t ∈ rest, Ok (rec inst t.2) (p t.2)) :
+    ∀ acc, Ex (moreValid rec inst k rest acc)
+      (r (acc ++ (rest.filter (fun t => p t.2)).map (·.2))) := by
+  induction rest with
+  | nil => intro acc; simpa [moreValid] using hk acc
+  | cons t rest ih =>
+    obtain ⟨i, s⟩ := t
+    intro acc
+    unfold moreValid
+    refine ex_innerValid _ (hx (i, s) (List.mem_cons_self ..)).2 ?_
+    have := ih (fun t ht => hx t (List.mem_cons_of_mem _ ht)) (if p s = true then acc ++ [s] else acc)
+    refine this.congr ?_
+    rw [List.filter_cons]
+    cases p s <;> simp
+
+theorem fv_one (p : Json → Bool) (n : Nat) (ss : List Json) :
+    fv p (fun rest => ((rest.filter (fun t => p t.2)).map (·.2)).isEmpty) (enumFrom n ss)
+      = ((ss.filter p).length == 1) := by
+  induction ss generalizing n with
+  | nil => rfl
+  | cons s ss ih =>
+    simp only [enumFrom, fv, List.filter_cons]
+    cases hp : p s
+    · simp only [Bool.false_eq_true, if_false]
+      exact ih (n + 1)
+    · simp only [if_true, List.length_cons]
+      clear ih
+      have : ∀ m, ((enumFrom m ss).filter (fun t => p t.2)).map (·.2) = ss.filter p := by
+        intro m
+        induction ss generalizing m with
+        | nil => rfl
+        | cons x xs ih =>
+          simp only [enumFrom, List.filter_cons]
+          cases p x <;> simp [ih]
+      rw [this]
+      cases ss.filter p <;> simp
+
+theorem ex_kwOneOf (ss : List Json) (i : Json) (h : ∀ s ∈ ss, Ok (rec i s) (sub s i)) :
+    Ex (kwOneOf rec (.arr ss) i) ((ss.filter (fun s => sub s i)).length == 1) := by
+  unfold kwOneOf
+  rw [← fv_one (fun s => sub s i) 0 ss]
+  refine ex_firstValid i _ _ _ (fun acc => ex_emit_one _) (fun s rest acc hrest => ?_) _
+    (fun t ht => h t.2 (mem_enumFrom ht)) []
+  dsimp only
+  have := ex_moreValid (rec := rec) i
+    (fun more => if more.isEmpty then nothing
+      else emit [Err.fresh "oneOfMore" [i, .arr (more ++ [s])]])
+    (fun s => sub s i) (fun more => more.isEmpty) (fun more => ex_ite_nothing _ _) rest hrest []
+  simpa using this
+
+/-! ### draft 3 `type`, `disallow` -/
+
+theorem any_enumFrom {α : Type} (p : α → Bool) (n : Nat) (xs : List α) :
+    (enumFrom n xs).any (fun t => p t.2) = xs.any p := by
+  induction xs generalizing n with
+  | nil => rfl
+  | cons x xs ih => simp only [enumFrom, List.any_cons, ih]
+
+theorem ex_typeDraft3Loop (d : Draft) (inst : Json) (k : Bool → List Err → Gen)
+    (htrue : ∀ acc, Ex (k true acc) true) (hfalse : ∀ acc, Ex (k false acc) false)
+    (xs : List (Nat × Json))
+    (hx : ∀ t ∈ xs, (∃ n, t.2 = .str n ∧ (typeNames d).contains n = true)
+        ∨ (t.2.isObj = true ∧ Ok (rec inst t.2) (sub t.2 inst))) :
+    ∀ acc, Ex (typeDraft3Loop (d.cfg none) rec inst k xs acc)
+      (xs.any (fun t => tyval d sub inst t.2)) := by
+  induction xs with
+  | nil => intro acc; exact hfalse acc
+  | cons t rest ih =>
+    obtain ⟨i, t⟩ := t
+    intro acc
+    have ih' := ih (fun t ht => hx t (List.mem_cons_of_mem _ ht))
+    unfold typeDraft3Loop
+    rw [isTypeS_object, withRes_ok, List.any_cons]
+    rcases hx (i, t) (List.mem_cons_self ..) with ⟨n, hn, hkn⟩ | ⟨hobj, hok⟩
+    · dsimp only at hn
+      subst hn
+      simp only [Json.isObj, Bool.false_eq_true, if_false, isType_known d n hkn, withRes_ok, tyval]
+      cases hasType d n inst
+      · simp only [Bool.false_eq_true, if_false, Bool.false_or]
+        exact ih' acc
+      · exact htrue acc
+    · dsimp only at hobj hok
+      rw [hobj, if_pos rfl]
+      refine ex_inner_none _ (ex_descendG _ _ hok.1) (fun es hes => ?_)
+      have htv : tyval d sub inst t = sub t inst := by
+        cases t <;> simp [Json.isObj] at hobj
+        rfl
+      dsimp only
+      rw [hes, htv]
+      cases sub t inst
+      · simp only [Bool.false_eq_true, if_false, Bool.false_or]
+        exact ih' _
+      · exact htrue acc
+
+theorem ex_kwTypeDraft3 (d : Draft) (v i : Json) (ts : List Json) (hv : ensureList v = some ts)
+    (h : ∀ t ∈ ts, (∃ n, t = .str n ∧ (typeNames d).contains n = true)
+        ∨ (t.isObj = true ∧ Ok (rec i t) (sub t i))) :
+    Ex (kwTypeDraft3 (d.cfg none) rec v i) (ts.any (tyval d sub i)) := by
+  unfold kwTypeDraft3
+  rw [hv, ← any_enumFrom (tyval d sub i) 0 ts]
+  exact ex_typeDraft3Loop d i _ (fun acc => ex_nothing) (fun acc => ex_emit_one _) _
+    (fun t ht => h t.2 (mem_enumFrom ht)) []
+
+theorem ex_kwDisallowDraft3 (d : Draft) (v i : Json) (ts : List Json) (hv : ensureList v = some ts)
+    (h : ∀ t ∈ ts, Ok (rec i (.obj [(skey "type", .arr [t])])) (tyval d sub i t)) :
+    Ex (kwDisallowDraft3 rec v i) (ts.all (fun t => !tyval d sub i t)) := by
+  unfold kwDisallowDraft3
+  rw [hv]
+  exact ex_seqG _ _ _ (fun t ht => ex_innerValid _ (h t ht).2 (ex_ite_emit _ _))
 
 end JS
